@@ -31,6 +31,9 @@ pub enum Step {
     ExecuteIter,
     /// paged execution during which every node forgets the statement right after serving the first page
     ExecuteIterEvictMidway,
+    /// a batch holding the statement as an unprepared string with bound values (the driver prepares it on
+    /// the fly); `evicted`: every node has forgotten it again by the time the BATCH arrives
+    BatchOnTheFly { evicted: bool },
 }
 
 #[derive(Debug, Clone, Serialize, Deserialize)]
@@ -87,6 +90,7 @@ struct St {
     nodes: Mutex<Vec<NodeState>>,
     seen: Mutex<Vec<Seen>>,
     evict_after_next_page: std::sync::atomic::AtomicBool,
+    evict_before_next_batch: std::sync::atomic::AtomicBool,
 }
 
 impl St {
@@ -172,6 +176,11 @@ impl Script for St {
     }
 
     fn on_batch(&self, ctx: &ReqCtx, frame: &ReqFrame) -> Action {
+        if self.evict_before_next_batch.swap(false, std::sync::atomic::Ordering::SeqCst) {
+            for n in self.nodes.lock().unwrap().iter_mut() {
+                n.prepared = false;
+            }
+        }
         let prepared = self.nodes.lock().unwrap()[ctx.node].prepared;
         let ReqBody::Batch { statements, .. } = &frame.body else { return Action::Default };
         let my_id = statement_id(&self.text);
@@ -207,6 +216,7 @@ pub fn oracle(c: &Case) -> Verdict {
         nodes: Mutex::new((0..n_nodes).map(|_| NodeState { prepared: false, id_changed: false }).collect()),
         seen: Mutex::new(vec![]),
         evict_after_next_page: std::sync::atomic::AtomicBool::new(false),
+        evict_before_next_batch: std::sync::atomic::AtomicBool::new(false),
     });
     env.registry.register(&marker, st.clone());
     env.registry.note_id(&statement_id(&text), &marker);
@@ -277,6 +287,21 @@ pub fn oracle(c: &Case) -> Verdict {
                         Err(e) => Got::Err(e.to_string()),
                     }));
                 }
+                Step::BatchOnTheFly { evicted } => {
+                    k += 1;
+                    if evicted {
+                        st2.evict_before_next_batch.store(true, std::sync::atomic::Ordering::SeqCst);
+                    }
+                    let mut b = Batch::default();
+                    b.append_statement(scylla::statement::unprepared::Statement::new(st2.text.clone()));
+                    b.append_statement(scylla::statement::unprepared::Statement::new("INSERT INTO ks.t (k) VALUES (0)"));
+                    let r = tokio::time::timeout(Duration::from_secs(20), session.batch(&b, ((k,), ()))).await.map_err(|_| "batch hung".to_string())?;
+                    st2.evict_before_next_batch.store(false, std::sync::atomic::Ordering::SeqCst);
+                    out.push((step, seen_before, match r {
+                        Ok(_) => Got::Void,
+                        Err(e) => Got::Err(e.to_string()),
+                    }));
+                }
                 Step::ExecuteIter | Step::ExecuteIterEvictMidway => {
                     k += 1;
                     if step == Step::ExecuteIterEvictMidway {
@@ -328,10 +353,22 @@ pub fn oracle(c: &Case) -> Verdict {
     let mut ever_id_changed = false;
     // seen idx -> (version sent, with_metadata, latest announced before, all announced before)
     let mut per_op_last_rows: BTreeMap<usize, (u32, bool, Option<u32>, Vec<u32>)> = BTreeMap::new();
+    // PREPAREs the driver issues for a batch's string statement belong to a statement object of its own:
+    // what they announce is not announced to the caller's prepared statement
+    let on_the_fly: Vec<(usize, usize)> = results
+        .iter()
+        .enumerate()
+        .filter(|(_, r)| matches!(r.0, Step::BatchOnTheFly { .. }))
+        .map(|(oi, r)| (r.1, results.get(oi + 1).map(|n| n.1).unwrap_or(seen.len())))
+        .collect();
     for (i, s) in seen.iter().enumerate() {
         match s {
             Seen::Prepare { id_returned, version, .. } => {
-                if *id_returned == my_id {
+                if on_the_fly.iter().any(|(a, b)| (*a..*b).contains(&i)) {
+                    if *id_returned != my_id {
+                        ever_id_changed = true;
+                    }
+                } else if *id_returned == my_id {
                     announced = Some(*version);
                     announced_all.push(*version);
                 } else {
@@ -477,6 +514,7 @@ pub fn case() -> BoxedStrategy<Case> {
         1 => (0u8..3).prop_map(Step::IdChange),
         6 => Just(Step::Execute),
         2 => Just(Step::Batch),
+        2 => any::<bool>().prop_map(|evicted| Step::BatchOnTheFly { evicted }),
         2 => Just(Step::ExecuteIter),
         2 => Just(Step::ExecuteIterEvictMidway),
     ];
@@ -486,7 +524,7 @@ pub fn case() -> BoxedStrategy<Case> {
 }
 
 pub fn run(ctx: &Ctx, rep: &mut Report) {
-    rep.rule = "Cases: a history of 1..12 steps over a prepared statement on a 1..3-node mock cluster: server-side events {evict on a node, schema change (new result columns, with the extension a new metadata id; with or without cache flush), node starts returning a different id on PREPARE} interleaved with client operations {execute_unpaged, batch containing the statement, execute_iter over two pages}; with/without the metadata-id extension and with/without use_cached_result_metadata. The mock behaves as a server: UNPREPARED for unknown ids, metadata omitted only when asked (and, with the extension, only when the presented id is current), new id + metadata otherwise. Oracle on the frame log and the caller's results: after UNPREPARED the same connection gets PREPARE then the identical EXECUTE/BATCH; a different id on re-prepare gives an error and no further EXECUTE; result column specs are those sent along or, if omitted, those most recently announced; rows decoded with the matching metadata equal the encoded rows; with the extension every skip-metadata EXECUTE presents the most recently announced id. Non-trivial = an eviction after a schema change, or a batch hitting an evicted statement.".into();
+    rep.rule = "Cases: a history of 1..12 steps over a prepared statement on a 1..3-node mock cluster: server-side events {evict on a node, schema change (new result columns, with the extension a new metadata id; with or without cache flush), node starts returning a different id on PREPARE} interleaved with client operations {execute_unpaged, batch containing the prepared statement, batch containing it as an unprepared string with values (prepared on the fly; optionally forgotten again before the BATCH arrives), execute_iter over two pages (optionally evicted after the first page)}; with/without the metadata-id extension and with/without use_cached_result_metadata. The mock behaves as a server: UNPREPARED for unknown ids, metadata omitted only when asked (and, with the extension, only when the presented id is current), new id + metadata otherwise. Oracle on the frame log and the caller's results: after UNPREPARED the same connection gets PREPARE then the identical EXECUTE/BATCH; a different id on re-prepare gives an error and no further EXECUTE; result column specs are those sent along or, if omitted, those most recently announced; rows decoded with the matching metadata equal the encoded rows; with the extension every skip-metadata EXECUTE presents the most recently announced id. Non-trivial = an eviction after a schema change, or a batch hitting an evicted statement.".into();
     rep.trusted_base = vec!["mock cluster behaving per the protocol spec for UNPREPARED / skip-metadata / metadata-id semantics".into()];
     rep.assumptions = vec!["operations are issued sequentially (so 'most recently announced' is well defined); concurrent callers are not generated".into()];
     if let Some((check, case_v)) = &ctx.replay {
